@@ -778,6 +778,22 @@ func (s *Summarizer) Explorer(fn *ssa.Function) *Explorer {
 			}
 		}
 		callee := staticCallee(call.Common())
+		// sync.Once.Do(f) runs f (at most once): summarise the function literal handed to it
+		if callee != nil && isFuncNamed(callee, "sync", "Once.Do") && len(call.Common().Args) == 2 {
+			if mc, ok := call.Common().Args[1].(*ssa.MakeClosure); ok {
+				inner := mc.Fn.(*ssa.Function)
+				var outs []Outcome
+				for _, r := range s.Summary(inner) {
+					o := Outcome{Flags: r.Flags, Trace: r.Trace}
+					if s.Combine != nil {
+						o.Flags = s.Combine(st.Flags, r.Flags)
+						o.Replace = true
+					}
+					outs = append(outs, o)
+				}
+				return outs
+			}
+		}
 		if callee == nil || callee.Blocks == nil {
 			return nil
 		}
